@@ -359,26 +359,25 @@ theorem plan_deleteObject (b k : Bytes) :
   touch_list <;> solve_by_elim
 
 theorem deleteObjectsPlan_allowed (op : Op) (b : Bytes) (hb : b ∈ writeBuckets op) (ks : List Bytes) :
-    ∀ (acc : List Touch) (paths : List Bytes), (∀ t ∈ acc, P e enc op t) →
-      (∀ p ∈ paths, ∀ a, P e enc op ⟨a, .path p⟩) →
-      ∀ t ∈ (deleteObjectsPlan e b ks acc paths).touches, P e enc op t := by
+    ∀ (paths : List Bytes), (∀ p ∈ paths, ∀ a, P e enc op ⟨a, .path p⟩) →
+      ∀ t ∈ (deleteObjectsPlan e b ks paths).touches, P e enc op t := by
   induction ks with
   | nil =>
-    intro acc paths ha hp
+    intro paths hp
     simp only [deleteObjectsPlan]
-    refine forall_withPath ha fun bp hbp => ?_
+    refine forall_withPath forall_nil fun bp hbp => ?_
     have h0 : P e enc op ⟨.read, .path bp⟩ := L_bucket hr (bw hb) hbp
-    refine forall_append (forall_append ha (by touch_list; exact h0)) ?_
+    refine forall_cons h0 ?_
     intro t ht
-    simp only [List.mem_map] at ht
-    obtain ⟨p, hpm, rfl⟩ := ht
-    exact hp p hpm _
+    obtain ⟨p, hpm, ht⟩ := List.mem_flatMap.mp ht
+    simp only [rd, rm, List.mem_cons, List.not_mem_nil, or_false] at ht
+    rcases ht with rfl | rfl <;> exact hp p hpm _
   | cons k rest ih =>
-    intro acc paths ha hp
+    intro paths hp
     simp only [deleteObjectsPlan]
-    refine forall_withPath ha fun p hpk => ?_
+    refine forall_withPath forall_nil fun p hpk => ?_
     have h1 : ∀ a, P e enc op ⟨a, .path p⟩ := fun _ => L_obj hr (bw hb) hpk
-    refine ih _ _ (forall_append ha (by touch_list; exact h1 _)) ?_
+    refine ih _ ?_
     intro p' hp' a
     rcases List.mem_append.mp hp' with h | h
     · exact hp p' h a
@@ -387,7 +386,7 @@ theorem deleteObjectsPlan_allowed (op : Op) (b : Bytes) (hb : b ∈ writeBuckets
 theorem plan_deleteObjects (b : Bytes) (ks : List Bytes) :
     ∀ t ∈ (plan e enc (.deleteObjects b ks)).touches, P e enc (.deleteObjects b ks) t := by
   simp only [plan]
-  exact deleteObjectsPlan_allowed e enc hr he _ b (by simp [writeBuckets]) ks [] [] forall_nil (by simp)
+  exact deleteObjectsPlan_allowed e enc hr he _ b (by simp [writeBuckets]) ks [] (by simp)
 
 theorem plan_copyObject (ap : Bool) (sb sk b k : Bytes) :
     ∀ t ∈ (plan e enc (.copyObject ap sb sk b k)).touches, P e enc (.copyObject ap sb sk b k) t := by
